@@ -37,7 +37,8 @@ REQUIRED = ["accepted_create_sound", "accepted_create_signed_by_did_key", "accep
             "managerRemoveVM_sound", "managerRemoveVM_noop", "managerRemoveVM_unknown", "removed_method_no_longer_authorises",
             "isCommitted_true_iff", "isCommitted_errors", "isCommitted_reads_what_update_reads",
             "add_then_contains", "own_add_is_the_ambassadors_add", "own_update_redelivery_inert", "own_add_then_isCommitted",
-            "fact_remove_vm_steps", "fact_godid_remove_vm", "fact_is_committed"]
+            "fact_remove_vm_steps", "fact_godid_remove_vm", "fact_is_committed",
+            "fact_thumbprint_id_comparison_is_textual", "noncanonical_thumbprint_spelling_refused"]
 
 FULL_DOC_RE = re.compile(r"doc=(\S+?)\{Context:\[[^\]]*\];Controller:\[([^\]]*)\];VerificationMethod:\[([^\]]*)\];Authentication:\[[^\]]*\];"
                          r"AssertionMethod:\[[^\]]*\];CapabilityInvocation:\[([^\]]*)\];CapabilityDelegation:\[[^\]]*\];KeyAgreement:\[[^\]]*\];Service:\[([^\]]*)\]")
